@@ -144,3 +144,10 @@ func autoInferable(name string) bool {
 	err := safely(func() error { return a.Infer(proto.ColumnType(name)) })
 	return err == nil
 }
+
+func verifRoot() string {
+	if r := os.Getenv("VERIF_ROOT"); r != "" {
+		return r
+	}
+	return "/verif"
+}
